@@ -520,28 +520,33 @@ Section Tree.
     destruct (anc_hd x Hx) as [t Ht]. rewrite Ht. rewrite last_cons. apply last_In.
   Qed.
 
-  (* 1g. the neighbours of a (non-empty) name are its parent and its children *)
-  Lemma neighbours_spec x y : x <> [] -> (In y (neighbours ls x) <-> adj ls x y).
+  (* 1g. the neighbours of a name are its parent and its children *)
+  Lemma neighbours_spec x y : In y (neighbours ls x) <-> adj ls x y.
   Proof.
-    intros Hne. unfold neighbours. rewrite dedup_In, in_app_iff, in_flat_map. unfold adj. split.
+    unfold neighbours. rewrite dedup_In, in_app_iff, in_flat_map. unfold adj. split.
     - intros [H|[[k l] [Hkl H]]].
       + left. unfold parent. destruct (lookup_level ls x) as [l|]; [|destruct H].
         destruct (lv_previous l); [destruct H|]. destruct H as [H|[]]. subst. reflexivity.
-      + right. cbn [snd] in H. destruct (beqb_reflect (lv_previous l) x) as [E|E]; [|destruct H].
+      + right. cbn [snd] in H. destruct (lv_previous l) as [|b p] eqn:Ep; [destruct H|].
+        destruct (beqb_reflect (b :: p) x) as [E|E]; [|destruct H].
         destruct H as [H|[]]. rewrite (wf_key_name _ _ Hkl) in H. subst k.
-        apply parent_Some. exists l. repeat split; [apply wf_lookup_iff; exact Hkl|exact E|exact Hne].
+        apply parent_Some. exists l. repeat split; [apply wf_lookup_iff; exact Hkl|congruence|].
+        rewrite <- E. discriminate.
     - intros [H|H].
       + left. unfold parent in H. destruct (lookup_level ls x) as [l|]; [|discriminate].
         destruct (lv_previous l); [discriminate|]. inversion H; subst. left; reflexivity.
       + right. apply parent_Some in H. destruct H as [l [H1 [H2 H3]]]. exists (y, l).
-        split; [apply lookup_In; exact H1|]. cbn [snd]. rewrite H2, beqb_refl'.
+        split; [apply lookup_In; exact H1|]. cbn [snd]. rewrite H2.
+        destruct x as [|b p]; [contradiction|]. rewrite beqb_refl'.
         left. apply wf_lookup_name; exact H1.
   Qed.
 
-  Lemma neighbours_sym x y : x <> [] -> y <> [] -> In y (neighbours ls x) <-> In x (neighbours ls y).
-  Proof.
-    intros Hx Hy. rewrite (neighbours_spec x y Hx), (neighbours_spec y x Hy). split; apply adj_sym.
-  Qed.
+  Lemma neighbours_parent_children x y :
+    In y (neighbours ls x) <-> (parent ls x = Some y \/ parent ls y = Some x).
+  Proof. apply neighbours_spec. Qed.
+
+  Lemma neighbours_sym x y : In y (neighbours ls x) <-> In x (neighbours ls y).
+  Proof. rewrite (neighbours_spec x y), (neighbours_spec y x). split; apply adj_sym. Qed.
 
   Lemma neighbours_nodup x : NoDup (neighbours ls x).
   Proof. apply dedup_NoDup. Qed.
@@ -845,16 +850,12 @@ Section DFS.
   Variable net : netcfg.
   Let ls := n_levels net.
   Hypothesis W : tree_wf ls = true.
-  Hypothesis NE : ~ In [] (names ls).
   Hypothesis OK : orders_ok net.
-
-  Lemma name_nonempty x : In x (names ls) -> x <> [].
-  Proof. intros H E. subst. contradiction. Qed.
 
   Lemma order_neighbours cur y : In cur (names ls) ->
     (In y (n_order net cur (neighbours ls cur)) <-> adj ls cur y).
   Proof.
-    intros Hc. destruct OK as [O1 _]. rewrite <- (neighbours_spec ls W cur y (name_nonempty _ Hc)).
+    intros Hc. destruct OK as [O1 _]. rewrite <- (neighbours_spec ls W cur y).
     split; intros H.
     - eapply Permutation_in; [apply O1|exact H].
     - eapply Permutation_in; [apply Permutation_sym; apply O1|exact H].
@@ -942,10 +943,419 @@ Section DFS.
   Qed.
 End DFS.
 
-(* 4 as stated needs one more side condition: no level is named by the empty string
-   (see [dfs_is_tree_path_refuted] below) *)
-Theorem dfs_is_tree_path_partial : forall net a b,
-  tree_wf (n_levels net) = true -> ~ In [] (names (n_levels net)) -> orders_ok net ->
+(* 4 as stated *)
+Theorem dfs_is_tree_path : forall net a b,
+  tree_wf (n_levels net) = true -> orders_ok net ->
   In a (names (n_levels net)) -> In b (names (n_levels net)) ->
   build_path (S (length (n_levels net))) net a b [] = tree_path (n_levels net) a b.
-Proof. intros net a b W NE OK Ha Hb. apply dfs_is_tree_path_s; assumption. Qed.
+Proof. intros net a b W OK Ha Hb. apply dfs_is_tree_path_s; assumption. Qed.
+
+(* ================================================================== *)
+(* 5. one step of navigation                                           *)
+(* ================================================================== *)
+
+(* the action the driver takes at [m] when the next node of the path is [next] *)
+Definition step_action (ls : list (bytes * level)) (m next : bytes) : action :=
+  match lookup_level ls next with
+  | Some nl => if beqb (lv_previous nl) m then AEscalate next else ADeescalate m
+  | None => ANone
+  end.
+
+Section Nav.
+  Variable net : netcfg.
+  Variable prompt_of : bytes -> bytes.
+  Let ls := n_levels net.
+  Hypothesis W : tree_wf ls = true.
+  Hypothesis OK : orders_ok net.
+  Hypothesis PI : prompts_identify net prompt_of.
+
+  (* [process_acquire] chooses [current] among the possible levels; with a singleton it is [m]
+     whatever [cached] is.  (Stated for any sub-list of [[m]] so that it does not depend on
+     which part of the list the model's as-pattern binds.) *)
+  Lemma current_is_m cached target m poss :
+    In m (names ls) -> In target (names ls) -> (poss = [m] \/ poss = []) ->
+    (if mem_bytes cached poss then cached
+     else if mem_bytes target poss
+          then match lookup_level ls target with Some l => lv_name l | None => target end
+          else m) = m.
+  Proof.
+    intros Hm Ht [->| ->]; [|reflexivity]. destruct (mem_bytes cached [m]) eqn:M1.
+    - apply mem_bytes_In in M1. destruct M1 as [E|[]]. symmetry; exact E.
+    - destruct (mem_bytes target [m]) eqn:M2; [|reflexivity].
+      apply mem_bytes_In in M2. destruct M2 as [E|[]]. subst target.
+      destruct (wf_lookup_total ls W m Hm) as [l [H1 [_ H3]]]. rewrite H1. exact H3.
+  Qed.
+
+  Theorem process_acquire_at_target cached target :
+    In target (names ls) ->
+    process_acquire net cached target (prompt_of target) = PAOk ANone target.
+  Proof.
+    intros Ht. unfold process_acquire. rewrite (PI target Ht). cbv beta iota zeta.
+    fold ls. rewrite (current_is_m cached target target _ Ht Ht) by (first [left; reflexivity|right; reflexivity]). rewrite beqb_refl'. reflexivity.
+  Qed.
+
+  (* for m <> target: the action is decided by the second node [next] of the tree path:
+     escalate into [next] if [next]'s previous is [m], else de-escalate out of [m] (and then
+     [next] is [m]'s previous) *)
+  Theorem process_acquire_step cached target m :
+    In m (names ls) -> In target (names ls) -> m <> target ->
+    exists next rest nl,
+      tree_path ls m target = Some (m :: next :: rest) /\
+      In next (names ls) /\ lookup_level ls next = Some nl /\
+      process_acquire net cached target (prompt_of m) = PAOk (step_action ls m next) net_unknown_priv /\
+      ((lv_previous nl = m /\ step_action ls m next = AEscalate next) \/
+       (lv_previous nl <> m /\ parent ls m = Some next /\ step_action ls m next = ADeescalate m)).
+  Proof.
+    intros Hm Ht Hne. destruct (tree_path_neq ls W m target Hm Ht Hne) as [next [rest Htp]].
+    destruct (tree_path_tail ls W m target next rest Hm Ht Htp) as [_ [Hadj Hn]].
+    destruct (wf_lookup_total ls W next Hn) as [nl [L1 [_ L3]]].
+    exists next, rest, nl. split; [exact Htp|]. split; [exact Hn|]. split; [exact L1|].
+    split.
+    - unfold process_acquire. rewrite (PI m Hm). cbv beta iota zeta. fold ls.
+      rewrite (current_is_m cached target m _ Hm Ht) by (first [left; reflexivity|right; reflexivity]).
+      destruct (beqb_reflect m target) as [E|_]; [contradiction|].
+      unfold ls. rewrite (dfs_is_tree_path net m target W OK Hm Ht). fold ls. rewrite Htp.
+      unfold step_action. rewrite L1, L3. destruct (beqb (lv_previous nl) m); reflexivity.
+    - unfold step_action. rewrite L1. destruct (beqb_reflect (lv_previous nl) m) as [E|E].
+      + left. split; [exact E|reflexivity].
+      + right. split; [exact E|]. split; [|reflexivity]. destruct Hadj as [H|H]; [exact H|].
+        apply parent_Some in H. destruct H as [l [H1 [H2 _]]]. congruence.
+  Qed.
+
+  (* when no level is named by the empty string the escalate case is a genuine child step *)
+  Corollary process_acquire_step_ne cached target m :
+    ~ In [] (names ls) ->
+    In m (names ls) -> In target (names ls) -> m <> target ->
+    exists next rest,
+      tree_path ls m target = Some (m :: next :: rest) /\
+      In next (names ls) /\
+      process_acquire net cached target (prompt_of m) = PAOk (step_action ls m next) net_unknown_priv /\
+      ((parent ls next = Some m /\ step_action ls m next = AEscalate next) \/
+       (parent ls m = Some next /\ step_action ls m next = ADeescalate m)).
+  Proof.
+    intros NE Hm Ht Hne.
+    destruct (process_acquire_step cached target m Hm Ht Hne) as [next [rest [nl [H1 [H2 [H3 [H4 H5]]]]]]].
+    exists next, rest. repeat split; try assumption.
+    destruct H5 as [[E Ha]|[_ [Hp Ha]]]; [left|right]; (split; [|exact Ha]); [|exact Hp].
+    apply parent_Some. exists nl. repeat split; [exact H3|exact E|]. intros E0. apply NE. rewrite <- E0. exact Hm.
+  Qed.
+End Nav.
+
+(* ================================================================== *)
+(* 6. the device follows                                               *)
+(* ================================================================== *)
+Section Device.
+  Variable net : netcfg.
+  Let ls := n_levels net.
+  Hypothesis W : tree_wf ls = true.
+  Hypothesis CO : cmds_ok ls.
+
+  Lemma path_cmds_cons m next rest :
+    path_cmds ls (m :: next :: rest) =
+    (m, match lookup_level ls next with
+        | Some ly => if beqb (lv_previous ly) m then lv_escalate ly
+                     else match lookup_level ls m with Some lx => lv_deescalate lx | None => [] end
+        | None => []
+        end) :: path_cmds ls (next :: rest).
+  Proof. reflexivity. Qed.
+
+  Theorem dev_escalate d next rest :
+    parent ls next = Some (d_mode d) ->
+    exists cmd,
+      path_cmds ls (d_mode d :: next :: rest) = (d_mode d, cmd) :: path_cmds ls (next :: rest) /\
+      dev_line ls d (action_line net (AEscalate next)) = mkADev next (d_log d ++ [(d_mode d, cmd)]).
+  Proof.
+    intros Hp. set (m := d_mode d) in *. apply parent_Some in Hp. destruct Hp as [nl [L1 [L2 L3]]].
+    exists (lv_escalate nl). split.
+    - rewrite path_cmds_cons, L1, L2, beqb_refl'. reflexivity.
+    - unfold action_line. fold ls. rewrite L1. destruct CO as [C1 [C2 C3]].
+      pose proof (lookup_In _ _ _ L1) as Hin.
+      assert (Hprev : lv_previous nl <> []) by (rewrite L2; exact L3).
+      destruct (C1 next nl Hin Hprev) as [Hesc _].
+      unfold dev_line. destruct (lv_escalate nl) as [|b cmd] eqn:Ecmd; [contradiction|].
+      unfold child_by_cmd. fold m.
+      destruct (filter (fun kl => beqb (lv_previous (snd kl)) m && beqb (lv_escalate (snd kl)) (b :: cmd)) ls)
+        as [|[k l] t] eqn:F.
+      + exfalso. assert (Hf : In (next, nl) (filter (fun kl => beqb (lv_previous (snd kl)) m && beqb (lv_escalate (snd kl)) (b :: cmd)) ls)).
+        { apply filter_In. split; [exact Hin|]. cbn [snd]. rewrite L2, Ecmd, !beqb_refl'. reflexivity. }
+        rewrite F in Hf. destruct Hf.
+      + assert (Hf : In (k, l) (filter (fun kl => beqb (lv_previous (snd kl)) m && beqb (lv_escalate (snd kl)) (b :: cmd)) ls))
+          by (rewrite F; left; reflexivity).
+        apply filter_In in Hf. destruct Hf as [Hkl Hc]. cbn [snd] in Hc. apply andb_true_iff in Hc.
+        destruct Hc as [Hc1 Hc2]. apply beqb_true_iff in Hc1. apply beqb_true_iff in Hc2.
+        assert (k = next).
+        { apply (C2 k l next nl Hkl Hin); [congruence|congruence|congruence]. }
+        subst k. cbn [snd]. rewrite (wf_key_name ls W _ _ Hkl). reflexivity.
+  Qed.
+
+  Theorem dev_deescalate d next rest :
+    d_mode d <> [] ->
+    parent ls (d_mode d) = Some next ->
+    exists cmd,
+      path_cmds ls (d_mode d :: next :: rest) = (d_mode d, cmd) :: path_cmds ls (next :: rest) /\
+      dev_line ls d (action_line net (ADeescalate (d_mode d))) = mkADev next (d_log d ++ [(d_mode d, cmd)]).
+  Proof.
+    intros Hm0 Hp. set (m := d_mode d) in *. pose proof Hp as Hp0.
+    apply parent_Some in Hp. destruct Hp as [lm [L1 [L2 L3]]].
+    destruct (parent_in_names ls W _ _ Hp0) as [Hm [Hn _]].
+    destruct (wf_lookup_total ls W next Hn) as [nl [N1 [_ _]]].
+    exists (lv_deescalate lm). split.
+    - rewrite path_cmds_cons, N1, L1.
+      destruct (beqb_reflect (lv_previous nl) m) as [E|E]; [|reflexivity].
+      exfalso. assert (Hpn : parent ls next = Some m).
+      { apply parent_Some. exists nl. repeat split; [exact N1|exact E|].
+        exact Hm0. }
+      pose proof (dep_parent ls W _ _ Hp0). pose proof (dep_parent ls W _ _ Hpn). lia.
+    - unfold action_line. fold ls. fold m. rewrite L1. destruct CO as [C1 [C2 C3]].
+      pose proof (lookup_In _ _ _ L1) as Hin.
+      assert (Hprev : lv_previous lm <> []) by (rewrite L2; exact L3).
+      destruct (C1 m lm Hin Hprev) as [_ Hde].
+      unfold dev_line. destruct (lv_deescalate lm) as [|b cmd] eqn:Ecmd; [contradiction|].
+      unfold child_by_cmd. fold m.
+      destruct (filter (fun kl => beqb (lv_previous (snd kl)) m && beqb (lv_escalate (snd kl)) (b :: cmd)) ls)
+        as [|[k l] t] eqn:F.
+      + rewrite L1, Ecmd, beqb_refl'. rewrite L2. destruct next as [|? ?]; [contradiction|]. reflexivity.
+      + exfalso.
+        assert (Hf : In (k, l) (filter (fun kl => beqb (lv_previous (snd kl)) m && beqb (lv_escalate (snd kl)) (b :: cmd)) ls))
+          by (rewrite F; left; reflexivity).
+        apply filter_In in Hf. destruct Hf as [Hkl Hc]. cbn [snd] in Hc. apply andb_true_iff in Hc.
+        destruct Hc as [Hc1 Hc2]. apply beqb_true_iff in Hc1. apply beqb_true_iff in Hc2.
+        apply (C3 m lm k l Hin Hkl); [rewrite (wf_key_name ls W _ _ Hin); exact Hc1|congruence].
+  Qed.
+End Device.
+
+(* 6 in one statement: the device follows the action chosen for an adjacent [next] *)
+Theorem dev_follows net d next rest :
+  tree_wf (n_levels net) = true -> cmds_ok (n_levels net) -> ~ In [] (names (n_levels net)) ->
+  In (d_mode d) (names (n_levels net)) -> adj (n_levels net) (d_mode d) next ->
+  exists cmd,
+    path_cmds (n_levels net) (d_mode d :: next :: rest) = (d_mode d, cmd) :: path_cmds (n_levels net) (next :: rest) /\
+    dev_line (n_levels net) d (action_line net (step_action (n_levels net) (d_mode d) next))
+    = mkADev next (d_log d ++ [(d_mode d, cmd)]).
+Proof.
+  intros W CO NE Hm Hadj. assert (Hm0 : d_mode d <> []) by (intros E; apply NE; rewrite <- E; exact Hm).
+  destruct (adj_in_names _ W _ _ Hadj) as [_ Hn].
+  destruct (wf_lookup_total _ W next Hn) as [nl [L1 _]].
+  unfold step_action. rewrite L1. destruct (beqb_reflect (lv_previous nl) (d_mode d)) as [E|E].
+  - apply dev_escalate; try assumption. apply parent_Some. exists nl. repeat split; assumption.
+  - apply dev_deescalate; try assumption. destruct Hadj as [H|H]; [exact H|].
+    apply parent_Some in H. destruct H as [l [H1 [H2 _]]]. congruence.
+Qed.
+
+(* ================================================================== *)
+(* 7. AcquirePriv walks the tree path and stops at the target          *)
+(* ================================================================== *)
+Section Acquire.
+  Variable net : netcfg.
+  Variable prompt_of : bytes -> bytes.
+  Let ls := n_levels net.
+  Hypothesis W : tree_wf ls = true.
+  Hypothesis NE : ~ In [] (names ls).
+  Hypothesis OK : orders_ok net.
+  Hypothesis PI : prompts_identify net prompt_of.
+  Hypothesis CO : cmds_ok ls.
+
+  Lemma acquire_abs_walk target : In target (names ls) ->
+    forall p d cached count fuel,
+      In (d_mode d) (names ls) ->
+      tree_path ls (d_mode d) target = Some p ->
+      length p <= fuel -> count + length p <= 2 * length ls + 1 ->
+      exists d', acquire_abs fuel net prompt_of d cached target count = AOk d' target /\
+                 d_mode d' = target /\ d_log d' = d_log d ++ path_cmds ls p.
+  Proof.
+    intros Ht. induction p as [|x p IH]; intros d cached count fuel Hm Htp Hlen Hcnt.
+    - exfalso. destruct (tree_path_spec_strong ls W _ _ Hm Ht) as [q [Hq [[Hh _] _]]].
+      rewrite Htp in Hq. inversion Hq; subst q. discriminate.
+    - destruct fuel as [|f]; [cbn in Hlen; lia|]. cbn [acquire_abs].
+      destruct (bytes_eq_dec (d_mode d) target) as [E|E].
+      + rewrite E in *. unfold ls in Ht. rewrite (process_acquire_at_target net prompt_of W PI cached target Ht).
+        fold ls in Ht. rewrite (tree_path_self ls W target Ht) in Htp. inversion Htp; subst.
+        exists d. split; [reflexivity|]. split; [first [exact E|reflexivity]|]. cbn [path_cmds]. rewrite app_nil_r. reflexivity.
+      + destruct (process_acquire_step_ne net prompt_of W OK PI cached target (d_mode d) NE Hm Ht E)
+          as [next [rest [Htp' [Hn [Hpa Hcase]]]]].
+        fold ls in Htp', Hn, Hpa, Hcase. rewrite Htp in Htp'. inversion Htp'; subst x p. clear Htp'.
+        rewrite Hpa.
+        destruct (tree_path_tail ls W _ _ _ _ Hm Ht Htp) as [Htl _].
+        assert (Hlt : Nat.ltb (2 * length (n_levels net)) (S count) = false).
+        { apply Nat.ltb_ge. fold ls. cbn [length] in Hcnt. lia. }
+        destruct Hcase as [[Hp Ha]|[Hp Ha]]; rewrite Ha; cbv beta iota zeta; rewrite Hlt.
+        * destruct (dev_escalate net W CO d next rest Hp) as [cmd [Hpc Hdl]]. fold ls in Hpc, Hdl.
+          fold ls. rewrite Hdl.
+          destruct (IH (mkADev next (d_log d ++ [(d_mode d, cmd)])) net_unknown_priv (S count) f)
+            as [d' [H1 [H2 H3]]]; [exact Hn|exact Htl|cbn [length] in *; lia|cbn [length] in *; lia|].
+          exists d'. split; [exact H1|]. split; [exact H2|].
+          rewrite H3. cbn [d_log]. rewrite Hpc, <- app_assoc. reflexivity.
+        * destruct (dev_deescalate net W CO d next rest (fun E0 => NE (eq_ind _ (fun z => In z (names ls)) Hm _ E0)) Hp) as [cmd [Hpc Hdl]]. fold ls in Hpc, Hdl.
+          fold ls. rewrite Hdl.
+          destruct (IH (mkADev next (d_log d ++ [(d_mode d, cmd)])) net_unknown_priv (S count) f)
+            as [d' [H1 [H2 H3]]]; [exact Hn|exact Htl|cbn [length] in *; lia|cbn [length] in *; lia|].
+          exists d'. split; [exact H1|]. split; [exact H2|].
+          rewrite H3. cbn [d_log]. rewrite Hpc, <- app_assoc. reflexivity.
+  Qed.
+
+  Theorem acquire_reaches_target_s d cached target :
+    In (d_mode d) (names ls) -> In target (names ls) ->
+    exists p d', tree_path ls (d_mode d) target = Some p /\
+                 acquire_priv_abs net prompt_of d cached target = AOk d' target /\
+                 d_mode d' = target /\ d_log d' = d_log d ++ path_cmds ls p.
+  Proof.
+    intros Hm Ht. destruct (tree_path_spec_strong ls W _ _ Hm Ht) as [p [Hp [[_ [_ [Hnd _]]] Hnames]]].
+    assert (Hlen : length p <= length ls).
+    { assert (length p <= length (names ls)) by (apply NoDup_incl_length; [exact Hnd|exact Hnames]).
+      unfold names in *. rewrite map_length in *. lia. }
+    destruct (acquire_abs_walk target Ht p d cached 0 (2 * length ls + 2) Hm Hp) as [d' [H1 H2]]; [lia|lia|].
+    exists p, d'. split; [exact Hp|]. split; [|exact H2].
+    unfold acquire_priv_abs. fold ls. destruct (names_In ls target Ht) as [l Hl]. rewrite Hl. exact H1.
+  Qed.
+End Acquire.
+
+(* 7 as stated needs the side condition that no level is named by the empty string *)
+Theorem acquire_reaches_target_partial : forall net prompt_of d cached target,
+  tree_wf (n_levels net) = true -> ~ In [] (names (n_levels net)) ->
+  orders_ok net -> prompts_identify net prompt_of -> cmds_ok (n_levels net) ->
+  In (d_mode d) (names (n_levels net)) -> In target (names (n_levels net)) ->
+  exists p d', tree_path (n_levels net) (d_mode d) target = Some p /\
+               acquire_priv_abs net prompt_of d cached target = AOk d' target /\
+               d_mode d' = target /\ d_log d' = d_log d ++ path_cmds (n_levels net) p.
+Proof. intros. apply acquire_reaches_target_s; assumption. Qed.
+
+Theorem acquire_unknown_target : forall net prompt_of d cached target,
+  ~ In target (names (n_levels net)) -> keys_are_names (n_levels net) = true ->
+  acquire_priv_abs net prompt_of d cached target = AErrPriv d.
+Proof.
+  intros net prompt_of d cached target Hn _. unfold acquire_priv_abs.
+  apply lookup_None in Hn. rewrite Hn. reflexivity.
+Qed.
+
+(* ================================================================== *)
+(* 8. non-vacuity: the Cisco IOS-XE privilege tree                     *)
+(* ================================================================== *)
+Module Example.
+  Definition lvl (name pat prev deesc esc : String.string) : bytes * level :=
+    (bs name, mkLevel (bs name) (bs pat) (re_lit (bs pat)) [] (bs prev) (bs deesc) (bs esc) false [] REps).
+
+  Definition iosxe_levels : list (bytes * level) :=
+    [ lvl "exec" ">" "" "" "";
+      lvl "privilege-exec" "r1#" "exec" "disable" "enable";
+      lvl "configuration" "(config)#" "privilege-exec" "end" "configure terminal";
+      lvl "tclsh" "(tcl)#" "privilege-exec" "tclquit" "tclsh" ]%string.
+
+  Definition iosxe_net : netcfg :=
+    mkNet iosxe_levels (bs "privilege-exec") [] (mkCfg 1000 REps [10%N] 0%Z) (fun _ l => l) (fun l => l).
+
+  Definition iosxe_prompt (m : bytes) : bytes :=
+    if beqb m (bs "exec") then bs "r1>"
+    else if beqb m (bs "privilege-exec") then bs "r1#"
+    else if beqb m (bs "configuration") then bs "r1(config)#"
+    else if beqb m (bs "tclsh") then bs "r1(tcl)#"
+    else [].
+
+  Lemma iosxe_tree_wf : tree_wf (n_levels iosxe_net) = true.
+  Proof. vm_compute. reflexivity. Qed.
+
+  Lemma iosxe_names_nonempty : ~ In [] (names (n_levels iosxe_net)).
+  Proof. cbn. intros [H|[H|[H|[H|[]]]]]; discriminate. Qed.
+
+  Lemma iosxe_orders_ok : orders_ok iosxe_net.
+  Proof. split; intros; apply Permutation_refl. Qed.
+
+  Lemma iosxe_prompts_identify : prompts_identify iosxe_net iosxe_prompt.
+  Proof.
+    intros m Hm. cbn in Hm. destruct Hm as [H|[H|[H|[H|[]]]]]; subst m; vm_compute; reflexivity.
+  Qed.
+
+  Ltac in_levels H :=
+    cbn in H; destruct H as [H|[H|[H|[H|[]]]]]; inversion H; subst; clear H.
+
+  Lemma iosxe_cmds_ok : cmds_ok (n_levels iosxe_net).
+  Proof.
+    split; [|split].
+    - intros k l H Hp. in_levels H; cbn in *; try contradiction; split; discriminate.
+    - intros k1 l1 k2 l2 H1 H2 E Hp Ee. in_levels H1; in_levels H2; cbn in *;
+        try reflexivity; try contradiction; try discriminate.
+    - intros k l kc lc H1 H2 E. in_levels H1; in_levels H2; cbn in *; try discriminate.
+  Qed.
+
+  Example iosxe_config_to_tclsh :
+    acquire_priv_abs iosxe_net iosxe_prompt (mkADev (bs "configuration") []) (bs "configuration") (bs "tclsh")
+    = AOk (mkADev (bs "tclsh") [(bs "configuration", bs "end"); (bs "privilege-exec", bs "tclsh")]) (bs "tclsh").
+  Proof. vm_compute. reflexivity. Qed.
+
+  (* the same through the theorem: its hypotheses are satisfiable and its conclusion is this run *)
+  Example iosxe_config_to_tclsh_thm :
+    exists p d',
+      tree_path iosxe_levels (bs "configuration") (bs "tclsh") = Some p /\
+      p = [bs "configuration"; bs "privilege-exec"; bs "tclsh"] /\
+      acquire_priv_abs iosxe_net iosxe_prompt (mkADev (bs "configuration") []) net_unknown_priv (bs "tclsh")
+        = AOk d' (bs "tclsh") /\
+      d_mode d' = bs "tclsh" /\
+      d_log d' = [(bs "configuration", bs "end"); (bs "privilege-exec", bs "tclsh")].
+  Proof.
+    destruct (acquire_reaches_target_partial iosxe_net iosxe_prompt (mkADev (bs "configuration") [])
+                net_unknown_priv (bs "tclsh") iosxe_tree_wf iosxe_names_nonempty iosxe_orders_ok
+                iosxe_prompts_identify iosxe_cmds_ok) as [p [d' [H1 [H2 [H3 H4]]]]].
+    - cbn. right; right; left; reflexivity.
+    - cbn. right; right; right; left; reflexivity.
+    - exists p, d'. change (n_levels iosxe_net) with iosxe_levels in *. cbn [d_mode d_log] in *.
+      assert (Hp : p = [bs "configuration"; bs "privilege-exec"; bs "tclsh"]).
+      { assert (E : tree_path iosxe_levels (bs "configuration") (bs "tclsh")
+                    = Some [bs "configuration"; bs "privilege-exec"; bs "tclsh"]) by (vm_compute; reflexivity).
+        rewrite E in H1. inversion H1; reflexivity. }
+      repeat split; try assumption. rewrite H4, Hp. vm_compute. reflexivity.
+  Qed.
+
+  (* ---- the side condition of 7 is needed: a level named by the empty string ---- *)
+  Definition bad_levels : list (bytes * level) :=
+    [ lvl "r" "A" "" "" ""; lvl "" "B" "r" "x" "e" ]%string.
+  Definition bad_net : netcfg :=
+    mkNet bad_levels (bs "r") [] (mkCfg 1000 REps [10%N] 0%Z) (fun _ l => l) (fun l => l).
+  Definition bad_prompt (m : bytes) : bytes := if beqb m (bs "r") then bs "A" else bs "B".
+
+  Example acquire_reaches_target_refuted :
+    tree_wf (n_levels bad_net) = true /\ orders_ok bad_net /\ prompts_identify bad_net bad_prompt /\
+    cmds_ok (n_levels bad_net) /\ In (d_mode (mkADev [] [])) (names (n_levels bad_net)) /\
+    In (bs "r") (names (n_levels bad_net)) /\
+    tree_path (n_levels bad_net) [] (bs "r") = Some [[]; bs "r"] /\
+    acquire_priv_abs bad_net bad_prompt (mkADev [] []) net_unknown_priv (bs "r") = AErrPriv (mkADev [] []).
+  Proof.
+    split; [vm_compute; reflexivity|]. split; [split; intros; apply Permutation_refl|].
+    split; [intros m Hm; cbn in Hm; destruct Hm as [H|[H|[]]]; subst m; vm_compute; reflexivity|].
+    split.
+    { split; [|split].
+      - intros k l H Hp. cbn in H. destruct H as [H|[H|[]]]; inversion H; subst; cbn in *;
+          try contradiction; split; discriminate.
+      - intros k1 l1 k2 l2 H1 H2 E Hp Ee. cbn in H1, H2.
+        destruct H1 as [H1|[H1|[]]]; destruct H2 as [H2|[H2|[]]]; inversion H1; inversion H2; subst; cbn in *;
+          try reflexivity; try contradiction; try discriminate.
+      - intros k l kc lc H1 H2 E. cbn in H1, H2.
+        destruct H1 as [H1|[H1|[]]]; destruct H2 as [H2|[H2|[]]]; inversion H1; inversion H2; subst; cbn in *;
+          try discriminate. }
+    split; [cbn; right; left; reflexivity|]. split; [cbn; left; reflexivity|].
+    split; vm_compute; reflexivity.
+  Qed.
+End Example.
+
+(* ================================================================== *)
+(* assumptions of the numbered theorems                                *)
+(* ================================================================== *)
+Print Assumptions wf_nodup.
+Print Assumptions wf_lookup_total.
+Print Assumptions wf_previous_in_names.
+Print Assumptions depth_parent.
+Print Assumptions wf_single_root.
+Print Assumptions anc_last_root.
+Print Assumptions neighbours_parent_children.
+Print Assumptions neighbours_sym.
+Print Assumptions tree_path_spec.
+Print Assumptions tree_path_unique.
+Print Assumptions dfs_is_tree_path.
+Print Assumptions process_acquire_at_target.
+Print Assumptions process_acquire_step.
+Print Assumptions dev_escalate.
+Print Assumptions dev_deescalate.
+Print Assumptions dev_follows.
+Print Assumptions acquire_reaches_target_partial.
+Print Assumptions acquire_unknown_target.
+Print Assumptions Example.iosxe_config_to_tclsh.
+Print Assumptions Example.iosxe_config_to_tclsh_thm.
+Print Assumptions Example.acquire_reaches_target_refuted.
